@@ -47,11 +47,15 @@ claimed = {
    text="Injection gates of the HTTP API: at the point where handlePostMessage and handleDeleteSession hand a client-supplied string to raft (assertions anchored at the applyMessageWait calls), the string is proved to contain no LF, CR or NUL for every request body (contract of strings.IndexAny). Every line a command handler hands to a send helper is proved to have a non-empty command and, when it carries a prefix, a prefix with a non-empty name (precondition lineOK of the six send helpers, discharged at all call sites in all registered handlers; needs the invariant that a relaying session has a nickname: registered clients by the dispatch gate, pseudo-clients and services links by invariant wfPrefix); every message appended to a reply is at most 510 bytes and produced by Message.Bytes from a structured message (invariant replyOK, contract of send).",
    note="Not proved: that no handler copies a control character from a parameter into a line through a path other than the two gates (irc.ParseMessage strips CR/LF at the ends only; interior CR/NUL are stopped at the gates). A line without prefix counts as well-formed (closing ERROR, lines to services). Assumes the contracts of strings.IndexAny/IndexByte/ToUpper, irc.ParseMessage (non-empty command) and irc.Message.Bytes (vendored sorcix/irc truncates at 510), non-empty -network_name (enforced in main), the conforming* clauses for services input (non-empty prefix name and server name).",
    design="§5 C15"),
+ "C18": dict(
+   text="One relation per format, established by every writer and inverted by every reader, all discharged for arbitrary field values: pbRepr (all 12 replicated fields of robust.Message) is the postcondition of Message.ProtoMessage and of CopyToProtoMessage (lemma: the two encoders agree field by field) and, read backwards, the assertion at the return of NewMessageFromBytes (protobuf branch), where the id is proved to default to the caller's index exactly when it is 0; raftRepr (index, term, type, data, extensions, append time) is asserted at every place a log entry is encoded (FSM.Apply, LevelDBStore.StoreLogs, ConvertToProto) and decoded (raftlog.FromBytes, LevelDBStore.GetLog, FSM.Snapshot, the text-log dump, the canary reader); keys are proved to be the entry's own index. A zero-annotation sweep over the SSA of the whole repository shows that every call of NewMessageFromBytes takes data and index from the same entry and converts the index with IdFromRaftIndex.",
+   note="Assumes proto.Marshal/Unmarshal (and the JSON codec of the legacy branches) are inverse on the generated types: the contracts pin down the field-by-field code on both sides of that dependency, not the dependency. Not covered: the hand-written binary codec of the output store (messageBatch.marshal/unmarshalMessageBatch) - a variable-length byte layout whose round trip needs recursive specification functions; no contract is claimed for it.",
+   design="§5 C18"),
 }
 na = {
  "C05": "whole-system property over process kills, restarts and leader changes of several OS processes running hashicorp/raft; no function contract within reach expresses it (DESIGN §5 C05)",
 }
-notbuilt = ["C02","C03","C04","C07","C08","C09","C18","C20"]
+notbuilt = ["C02","C03","C04","C07","C08","C09","C20"]
 checks = []
 for pid, c in sorted(claimed.items()):
     checks.append({
